@@ -31,7 +31,7 @@ from ..ref import scan as ref
 PROPERTY = 'C15'
 LEVEL = 'exploration'
 
-ALPHA6 = (1, 5, -3, 'apple', 'Banana', 'b')
+ALPHA6 = (0, 5, -3, 'apple', 'Banana', 'b')
 ALPHA4 = (1, 5, 'apple', 'b')
 OPS = ('=', '<>', '<', '<=', '>', '>=')
 OPERANDS = ('5', '-3', '0', 'apple', 'b', 'BANANA')
@@ -49,7 +49,7 @@ VL_SEARCH = VL_KEYS + (7, 'zz')
 CHOOSE_VALUES = (10, 't2', 30.5, 't4')
 POWERS = (1, 2, 4, 8, 16, 32)
 
-RULE = ('every column of the tier\'s length bound over {1,5,-3,"apple",'
+RULE = ('every column of the tier\'s length bound over {0,5,-3,"apple",'
         '"Banana","b"} is compiled into one model together with a COUNTIF '
         'probe per criterion (45: plain numbers/texts, each prefix x numeric '
         '/negative/text operand) and an exact MATCH probe per key (each '
